@@ -65,6 +65,7 @@ def run_case(case, workdir):
     with vpool.controlled():
         pck = PlotfileCooker(path)
         sels = [("name", names[1], [1]), ("names", [names[2], names[0]], [2, 0]), ("slice", slice(0, 2), [0, 1])]
+        reused = {tag: pck[sel] for tag, sel, fidx in sels}      # ONE selector object per form, queried again and again
         nlev = ref.nlevels
         for lv in range(nlev):
             for b, (lo, hi) in enumerate(ref.boxes[lv]):
@@ -86,6 +87,15 @@ def run_case(case, workdir):
                         got = np.atleast_1d(np.asarray(val, dtype=float)).ravel()
                         if got.shape != exp.shape or not np.all(np.abs(got - exp) <= 1e-6):
                             rec.fail("values", sub, "returned %r, stored %r" % (got.tolist(), exp.tolist()))
+                        st2, val2 = call(lambda: reused[tag](*pt))
+                        rec.exe([dh, lv, g, tag, "reused"], nontrivial=True)
+                        if st2 == "exc":
+                            rec.fail("history_raised", dict(sub, selector="re-used object"), exc_text(val2))
+                        else:
+                            got2 = np.atleast_1d(np.asarray(val2, dtype=float)).ravel()
+                            if got2.shape != exp.shape or not np.all(np.abs(got2 - exp) <= 1e-6):
+                                rec.fail("history_dependent", dict(sub, selector="re-used object"),
+                                         "a selector object queried before returned %r, stored %r" % (got2.tolist(), exp.tolist()))
         # outside the domain: every side, half a coarse cell and five cells out
         mid = [0.5 * (a + b) for a, b in zip(ref.geo_lo, ref.geo_hi)]
         for d in range(3):
